@@ -645,10 +645,11 @@ LAYOUTS['lawn'] = LawnLayout()
 class BlobStorageMixin:
     """A mix-in to help storages support blobs."""
 
-    def _blob_init(self, blob_dir, layout='automatic'):
+    def _blob_init(self, blob_dir, layout='automatic', create=True):
         # XXX Log warning if storage is ClientStorage
         self.fshelper = FilesystemHelper(blob_dir, layout)
-        self.fshelper.create()
+        if create:
+            self.fshelper.create()
         self.dirty_oids = []
 
     def _blob_init_no_blobs(self):
